@@ -518,6 +518,10 @@ def gen_py(t, rng: random.Random, overflow: list | None = None):
         for f in t.__fields__:
             if f.bits:
                 v = rng.choice([0, (1 << f.bits) - 1, rng.randrange(0, 1 << f.bits)])
+                if overflow and overflow[0] and not issubclass(f.type, (Enum, Flag)):
+                    # a value one bit too wide (or negative) for the bit field: it must be rejected, not spill into the neighbouring fields
+                    overflow[0] = False
+                    v = rng.choice([1 << f.bits, (1 << f.bits) + 1, -1])
                 setattr(obj, f._name, f.type(v) if issubclass(f.type, (Enum, Flag)) else v)
             else:
                 setattr(obj, f._name, gen_py(f.type, rng, overflow))
